@@ -188,6 +188,15 @@ func (e *Env) loadContractFile(path string) error {
 				return fmt.Errorf("%s:%d: duplicate contract for %s (first at %s:%d)", rel, lineNo, cur.Func, old.File, old.Line)
 			}
 			e.contracts[cur.Func] = cur
+		case strings.HasPrefix(body, "guarded "):
+			// guarded T by mu: shared fields of struct type T are protected by the mutex field T.mu
+			finish()
+			cur = nil
+			f := strings.Fields(body)
+			if len(f) != 4 || f[2] != "by" {
+				return fmt.Errorf("%s:%d: malformed guarded declaration (want: guarded T by mu)", rel, lineNo)
+			}
+			e.guarded[pkg+"."+f[1]] = f[3]
 		case strings.HasPrefix(body, "iface "):
 			finish()
 			name := strings.TrimSpace(strings.TrimPrefix(body, "iface "))
